@@ -49,7 +49,7 @@ from bandit.core import test_properties as test
 @test.test_id("B506")
 @test.checks("Call")
 def yaml_load(context):
-    imported = context.is_module_imported_exact("yaml")
+    imported = context.is_module_imported_like("yaml")
     qualname = context.call_function_name_qual
     if not imported and isinstance(qualname, str):
         return
